@@ -161,6 +161,18 @@ pub fn run_scenario(sc: &Scenario) -> Judged {
                         break 'lines;
                     }
                 }
+                if history.len() > 101 {
+                    for oc in &occs {
+                        if oc.occ_recorded >= 2 {
+                            // are both earlier occurrences more than 100 plies back?
+                            let k = oc.succ.key();
+                            let recent = history.iter().rev().take(100).filter(|h| h.key() == k).count();
+                            if oc.occ_recorded - recent >= 2 && recent == 0 {
+                                j.probes.add("third_occurrence_after_more_than_100_plies", 1);
+                            }
+                        }
+                    }
+                }
                 if occs.len() == 1 && occs[0].occ_recorded >= 2 {
                     j.probes.add("only_legal_move_repeats", 1);
                 }
@@ -279,7 +291,9 @@ fn reversible_moves(p: &Pos) -> Vec<RMove> {
 fn gen_history(rng: &mut Rng, start: &Pos) -> Vec<RMove> {
     let mut pos = start.clone();
     let mut moves: Vec<RMove> = vec![];
-    let segments = rng.range(1, 5);
+    // one history in eight is long (up to ~400 plies): repetitions whose earlier
+    // occurrences lie far back in the game
+    let segments = if rng.chance(1, 8) { rng.range(10, 45) } else { rng.range(1, 5) };
     for _ in 0..segments {
         match rng.below(3) {
             0 => {
@@ -331,9 +345,93 @@ fn gen_history(rng: &mut Rng, start: &Pos) -> Vec<RMove> {
     moves
 }
 
+/// A history in which a position occurs twice early and can be brought about a third time
+/// only after a long stretch (more than 100 plies) of reversible shuffling elsewhere.
+fn gen_far_repetition(rng: &mut Rng, start: &Pos) -> Option<Vec<RMove>> {
+    let back = |m: &RMove| RMove { from: m.to, to: m.from, promo: 0, flags: 0 };
+    let mut pos = start.clone();
+    let mut moves = vec![];
+    let mut play = |pos: &mut Pos, moves: &mut Vec<RMove>, want: &RMove| -> bool {
+        match pos.find_uci(&want.uci()) {
+            Some(m) if m.flags == 0 && m.promo == 0 && kind(pos.sq[m.from as usize]) != PAWN => {
+                *pos = pos.make(&m);
+                moves.push(m);
+                true
+            }
+            _ => false,
+        }
+    };
+    // first cycle: X, a, b, a', b' = X again
+    let ra = reversible_moves(&pos);
+    if ra.is_empty() {
+        return None;
+    }
+    let a = *rng.pick(&ra);
+    let rb = reversible_moves(&pos.make(&a));
+    if rb.is_empty() {
+        return None;
+    }
+    let b = *rng.pick(&rb);
+    for m in [a, b, back(&a), back(&b)] {
+        if !play(&mut pos, &mut moves, &m) {
+            return None;
+        }
+    }
+    // leave X: a out, b out -> Y; then k cycles with two other pieces
+    if !play(&mut pos, &mut moves, &a) || !play(&mut pos, &mut moves, &b) {
+        return None;
+    }
+    let rc: Vec<RMove> = reversible_moves(&pos).into_iter().filter(|m| m.from != a.to).collect();
+    if rc.is_empty() {
+        return None;
+    }
+    let c = *rng.pick(&rc);
+    let rd: Vec<RMove> = reversible_moves(&pos.make(&c)).into_iter().filter(|m| m.from != b.to).collect();
+    if rd.is_empty() {
+        return None;
+    }
+    let d = *rng.pick(&rd);
+    let k = rng.range(20, 40);
+    for _ in 0..k {
+        for m in [c, d, back(&c), back(&d)] {
+            if !play(&mut pos, &mut moves, &m) {
+                return None;
+            }
+        }
+    }
+    // a back; now b back would bring X about for the third time (or stop one ply earlier)
+    if rng.chance(3, 4) {
+        if !play(&mut pos, &mut moves, &back(&a)) {
+            return None;
+        }
+    }
+    Some(moves)
+}
+
 pub fn generate(seed: u64) -> Scenario {
     let mut rng = Rng::new(seed);
     let mut lines = vec![];
+    if rng.chance(1, 12) {
+        // far repetition
+        let start = if rng.chance(1, 2) {
+            Pos::startpos()
+        } else {
+            let mut p = gen::random_position(&mut rng);
+            if !p.is_valid() || p.legal_moves().is_empty() {
+                p = Pos::startpos();
+            }
+            p.halfmove = 0;
+            p.fullmove = p.fullmove.clamp(1, 200);
+            p
+        };
+        if let Some(ms) = gen_far_repetition(&mut rng, &start) {
+            let root = if start == Pos::startpos() { "startpos".to_string() } else { format!("fen {}", start.to_fen()) };
+            lines.push("ucinewgame".to_string());
+            lines.push(format!("position {} moves {}", root, gen::moves_uci(&ms).join(" ")));
+            lines.push("go depth 1".to_string());
+            return Scenario { lines, key_seed: rng.next_u64() };
+        }
+    }
     let games = rng.range(1, 2);
     for _ in 0..games {
         lines.push("ucinewgame".to_string());
